@@ -14,19 +14,19 @@ Definition hx1 (fp : fpr) : string :=
 Definition w_task (m : method) : task :=
   {| t_name := "build"; t_label := None; t_method := m;
      t_sources := [(false, "src/**/*.txt"); (true, "src/ex/*.txt")]; t_generates := [];
-     t_status := []; t_prompt := false; t_dir := ""; t_ncmds := 2; t_outputs := [] |}.
+     t_status := []; t_prompt := false; t_dir := ""; t_ncmds := 2; t_outputs := []; t_subguard := None |}.
 Definition w_prompt (m : method) : task :=
   {| t_name := "build"; t_label := None; t_method := m;
      t_sources := [(false, "src/**/*.txt")]; t_generates := [];
-     t_status := []; t_prompt := true; t_dir := ""; t_ncmds := 2; t_outputs := [] |}.
+     t_status := []; t_prompt := true; t_dir := ""; t_ncmds := 2; t_outputs := []; t_subguard := None |}.
 Definition w_gen (m : method) : task :=
   {| t_name := "build"; t_label := None; t_method := m;
      t_sources := [(false, "src/*.txt")]; t_generates := [(false, "out.txt")];
-     t_status := []; t_prompt := false; t_dir := ""; t_ncmds := 2; t_outputs := ["out.txt"] |}.
+     t_status := []; t_prompt := false; t_dir := ""; t_ncmds := 2; t_outputs := ["out.txt"]; t_subguard := None |}.
 Definition w_dir : task :=
   {| t_name := "build"; t_label := None; t_method := Checksum;
      t_sources := [(false, "src/*.txt")]; t_generates := [];
-     t_status := []; t_prompt := false; t_dir := "newdir"; t_ncmds := 1; t_outputs := [] |}.
+     t_status := []; t_prompt := false; t_dir := "newdir"; t_ncmds := 1; t_outputs := []; t_subguard := None |}.
 
 Definition w_init : state :=
   {| fs := [("src/a.txt", {| f_content := "A0"; f_mtime := 1 |});
@@ -44,8 +44,8 @@ Definition w12 (v : variant) (p : project) (h : list event) : bool :=
   mon_C12 (snap_of w_init) (w_obs v p h).
 
 Ltac by_variant v :=
-  destruct v as [a1 a2 a3 a4 a5 a6 a7 a8 a9]; cbn [v_ts_rollback v_prompt_rollback v_listjson_dry v_safe
-    v_fp_exact v_ts_exact v_ts_gen_exist v_dry_mkdir_guard v_force_records]; intros; subst;
+  destruct v as [a1 a2 a3 a4 a5 a6 a7 a8 a9 a10]; cbn [v_ts_rollback v_prompt_rollback v_listjson_dry v_safe
+    v_fp_exact v_ts_exact v_ts_gen_exist v_dry_mkdir_guard v_force_records v_dry_fail_guard]; intros; subst;
   repeat match goal with b : bool |- _ => destruct b end; vm_compute; repeat split.
 
 (* 7.4: method timestamp, failed run, next run "up to date" *)
@@ -127,7 +127,7 @@ Lemma key_collision : normalize "gen.x" = normalize "gen-x" /\ "gen.x" <> "gen-x
 Proof. split; [reflexivity | discriminate]. Qed.
 Definition w_named (n : string) (m : method) : task :=
   {| t_name := n; t_label := None; t_method := m; t_sources := [(false, "src/*.txt")]; t_generates := [];
-     t_status := []; t_prompt := false; t_dir := ""; t_ncmds := 1; t_outputs := [] |}.
+     t_status := []; t_prompt := false; t_dir := ""; t_ncmds := 1; t_outputs := []; t_subguard := None |}.
 Definition h_keys : list event := [(10, Invoke Run 0 AllOk); (12, Invoke Run 1 AllOk)]%N.
 Lemma key_collision_refuted : forall v m, m <> NoMethod ->
   w04 v [w_named "gen.x" m; w_named "gen-x" m] h_keys = false.
@@ -154,4 +154,17 @@ Proof. intro v; by_variant v. Qed.
    fingerprint at which it never ran *)
 Lemma ts_removal_refuted_c04 : forall v,
   v_ts_exact v = false -> w04 v [w_task Timestamp] h_rm = false.
+Proof. intro v; by_variant v. Qed.
+
+(* [HISTORICAL, repaired in 41513bc] a dry run whose sub-call fails (callee precondition) drops the caller's record *)
+Definition w_sub : task :=
+  {| t_name := "build"; t_label := None; t_method := Checksum;
+     t_sources := [(false, "src/**/*.txt")]; t_generates := [];
+     t_status := []; t_prompt := false; t_dir := ""; t_ncmds := 1; t_outputs := []; t_subguard := Some "guard.flag" |}.
+Definition w_init_flag : state := with_fs w_init (fs_set "guard.flag" {| f_content := "g"; f_mtime := 4 |} (fs w_init)).
+Definition h_dryfail : list event :=
+  [(10, Invoke Run 0 AllOk); (12, Write "src/a.txt" "A1"); (14, Remove "guard.flag"); (16, Invoke Dry 0 AllOk)]%N.
+Lemma dry_fail_refuted : forall v,
+  v_dry_fail_guard v = false ->
+  mon_C12 (snap_of w_init_flag) (observe gmatch idH hx1 v [w_sub] w_init_flag h_dryfail) = false.
 Proof. intro v; by_variant v. Qed.
